@@ -11,7 +11,7 @@ except Exception:
     pass
 man = {
  "version": 1,
- "setup_cmd": "cd /verif && ./vcheck build",
+ "setup_cmd": "cd /verif && ./vcheck build && (./vcheck selftest -n 1 > selftest.log 2>&1 || true)",
  "hooks": {
   "guard": "verif",
   "enable": "no source change in /repo: harnesses are in-package files (build tag `verif`) injected with a go/packages overlay for the symbolic engine and with `go test -tags verif -overlay` for native replay",
